@@ -60,6 +60,22 @@ PROPS = {
   'thorough': {'cases': 200000, 'max_size': 300, 'exhaustive': True, 'wall_s': 3000},
   'essential_classes': ['end:error', 'end:OK', 'end:NA', 'end:FAIL', 'policies-evaluated:4', 'chain-length:3', 'depth:3'],
   'assumptions': ['reference interpreter reflects the documented semantics'],
+ }, 'C12': {
+  'technique': 'coverage-guided fuzzing (libFuzzer, ASan/UBSan) + rapidcheck structure-aware TLV mutation, with per-case allocation accounting',
+  'level_text': 'Twelve entry points (signature, aggregation/extension PDUs v1/v2, publications file, publication string, TLV tree / header / element readers, URI split, '
+                'hash-name lookup) and the follow-up operations on accepted objects (verification under all seven policies, serialize, clone, identity, publication info, '
+                'string rendering, with and without debug logging) are driven with the repository samples, tree-level and byte-level mutations of them and raw fuzzer bytes '
+                'under ASan/UBSan; after every case all objects and the context are freed and the SDK allocation count must return to its start value, and a known-good '
+                'signature must still verify on the same context. Sampling of an astronomically large space.',
+  'level_note': 'Trusted: ASan/UBSan (nonnull-attribute and pointer-overflow checks disabled, see DESIGN.md), the allocation shim on base.c, libFuzzer/rapidcheck. OpenSSL/libc allocations are covered by LeakSanitizer only.',
+  'rule': 'inputs: every repository sample x applicable targets (exhaustive over the corpus), rapidcheck choice strings -> {raw bytes, fragment-built text, seed + 1..3 tree '
+          'mutations from the 21-kind catalogue, seed + 1..4 byte mutations}, libFuzzer over the same decoder in the thorough tier. Non-trivial = the input passed the outer framing '
+          'and produced an object on which follow-ups ran, or is a mutation of a valid sample; distinct = distinct (target, seed, mutation list / length).',
+  'quick': {'cases': 9600, 'max_size': 300, 'exhaustive': True, 'wall_s': 900},
+  'thorough': {'cases': 160000, 'max_size': 400, 'exhaustive': True, 'wall_s': 3400, 'fuzz': {'runs': 400000, 'max_len': 4096, 'jobs': 16}},
+  'leaks': True,
+  'essential_classes': ['sig:parsed', 'aggr:parsed', 'ext:parsed', 'pubfile:parsed', 'tlv:parsed', 'element:parsed', 'mode:tree-mutation', 'mode:byte-mutation', 'mode:raw', 'context-reuse-checks'],
+  'assumptions': ['only the generated inputs are covered; nothing is claimed for inputs not generated'],
  },
 }
 
